@@ -74,7 +74,7 @@ CHECKS = {
              "along the normal; dayOfYear equals the independent civil calendar for every Gregorian date of every year and consecutive dates "
              "(month ends, 28/29 Feb, 31 Dec/1 Jan) are consecutive days; the sidereal angle advances linearly within a year and is continuous "
              "to 1e-9 rad across every year boundary 1990-2059 (exact rational kernel evaluation on the extracted constants). Tied to the code by "
-             "differential runs with the real reduction matrices as inputs, round-trip oracles and a rotation-continuity probe around boundaries.",
+             "differential runs with the real reduction matrices as inputs, round-trip oracles (geodetic ones including the poles and their neighbourhood) and a rotation-continuity probe around boundaries.",
         note=BASE_TB + "sin/cos/sqrt/arcsin/arctan2 are oracle inputs with their identities as hypotheses; nutation/precession series and the EOP table are data; "
              "ecef2lla is covered by the round-trip oracle only; continuity allows the jump explained by the EOP table's own daily dUT1 step.",
         technique="Lean 4 proof (polynomial identities, omega over the calendar, kernel-evaluated finite table) + differential correspondence + round-trip/continuity oracles",
@@ -105,7 +105,8 @@ CHECKS = {
              "submission, fire inside the step) an impulse with a unique instant is applied exactly once whether its scenario time falls inside a "
              "step, on a boundary or a hair beside one. Witness theorems record the unrepaired window gap, instance filter and double application, "
              "and that coincident impulses lose one. Tied to the code by bit-exact comparison of the windows the real stepForward computes, delivery "
-             "runs against a real in-memory database, and an in-process pipeline of the real query/handleEvent/prune/TwoBody.propagate code.",
+             "runs against a real in-memory database (instance ids 0, 1, 2: id 0 is legal), an in-process pipeline of the real query/handleEvent/prune/TwoBody.propagate code, "
+             "and impulses driven through a real Scenario (two targets, several impulses in different steps) against Kepler arcs joined by the impulses.",
         note=BASE_TB + "scipy's event location is modelled by its documented rule and exercised on every impulse case; strict monotonicity of "
              "datetimeToJulianDate is a hypothesis here (C05) and checked bit-exactly on every generated window; events at/before the start are outside the property.",
         technique="Lean 4 proof (tiling over a monotone map, induction over steps) + bit-exact window correspondence + differential delivery/impulse pipeline on the real code",
@@ -155,9 +156,12 @@ CHECKS = {
         text="Theorems (Lean 4): in every propagation call the thrust is on exactly on the overlap of the call with [start, end] - for calls containing the "
              "start, the end, both or neither, under the re-arm rule of _prepEvents and the phase-dependent event function - hence, by a telescoping clip "
              "argument, the total time with thrust on is end - start for EVERY division of the run into calls (any step size, aligned or not); a witness "
-             "theorem records the unrepaired overrun (60-150 s with 60 s steps thrusts to 180 s). Tied to the code by comparing, call by call, the on/off "
-             "callback times of the real SpecialPerturbations/TwoBody propagators (real event classes, real prune rule) with the model's intervals, and the "
-             "final state with an independent coast/thrust/coast integration (the property itself).",
+             "theorem records the unrepaired overrun (60-150 s with 60 s steps thrusts to 180 s). Several burns of one agent share one thrust slot: "
+             "slot_is_own_interval proves that for burns that do not touch, at every instant of every call the slot holds burn b exactly on b's own interval, "
+             "whatever else is queued (each_burn_own_duration: each is on for its own end - start); slot_witnesses records what a _prepEvents that clears the "
+             "slot for burns not under way does. Tied to the code by comparing, call by call, every thrust callback (burn, time, installed/removed) and the "
+             "slot at the end of the call of the real SpecialPerturbations/TwoBody propagators (real event classes, real prune rule, one or two burns per agent) "
+             "with the model's timeline, and the final state with an independent coast/thrust/coast(/thrust/coast) integration (the property itself).",
         note=BASE_TB + "scipy's terminal-event location is the abstract integrator (an event fires at its root); trajectory equality is numerical, against a reference "
              "integration with the same tolerances; boundaries within 1e-9 s before the end are excluded (the callback's tolerance).",
         technique="Lean 4 proof (per-call overlap + telescoping) + differential correspondence of callback times + reference-trajectory oracle",
@@ -182,7 +186,8 @@ CHECKS = {
              "every step for ANY two rest-of-systems (estimation on/off, filters, rewards, decisions, sensors, noise, output cadence) and any permutation of job completions; "
              "other agents are irrelevant; one call or consecutive calls are the same fold. Tied to the code by pairs of real runs on real Ray compared BIT FOR BIT on every "
              "truth state per step and on the stored truth rows: truth-only, other policies, other noise seed, output every second step, uneven propagateTo splits, permuted "
-             "completions, extra/fewer targets, an extra sensor; two-body and perturbed truth, with an NTW impulse.",
+             "completions, extra/fewer targets, the first target dropped, targets in reverse order, an extra sensor; two-body and perturbed truth, with an NTW impulse; targets of "
+             "different mass and area with radiation pressure on; once per scenario one variant runs in a fresh interpreter, so that nothing the process built earlier can mask a dependence.",
         note=BASE_TB + "that the real step has the modelled structure (the truth update reads nothing but truth) is exactly what the bit-for-bit pairs test; Ray's worker isolation is assumed and exercised.",
         technique="Lean 4 proof (non-interference by induction, order independence) + bit-for-bit differential runs of real scenario pairs",
         ref="5/C10",
